@@ -65,7 +65,7 @@ T = {
 }
 
 
-def logical(name, x):
+def logical(name, x, step=None):
     n = len(x)
     spec = G.SPECS.get(name)
     d = dict(x=list(x))
@@ -74,7 +74,7 @@ def logical(name, x):
     if spec["kind"] == "position":
         d = dict(lon=[p[0] for p in x], lat=[p[1] for p in x])
     if "t" in spec["needs"]:
-        d["secs"] = alpha.regular_secs(n)
+        d["secs"] = alpha.regular_secs(n) if step is None else [alpha.T0 + step * i for i in range(n)]
     if "z" in spec["needs"]:
         d["z"] = [5.0 + (i % 3) for i in range(n)] if name == "climatology_test" else [10.0 + i * (1 if i < 3 else -1) for i in range(n)]
     return d
@@ -283,7 +283,8 @@ def run_task(task, acc):
         series = ([spec["al"][first], *rest] for k in range(1, n + 1) for rest in itertools.product(spec["al"], repeat=k - 1))
         cfgs = [spec["cfgs"][ci]]
     for x in series:
-        lg = logical(name, list(x))
+      for step in ((None, 1.5, 2.25) if name == "rate_of_change_test" else (None,)):
+        lg = logical(name, list(x), step)
         for cfg in cfgs:
             found, nexec, skipped, results = check_series(name, cfg, lg)
             acc.visit(cid(dict(fn=name, cfg=cfg, base=lg)), False, None, edges=nexec - 1, evals=nexec,
